@@ -88,8 +88,13 @@ def evaluate(
   """
   # Set up the permission and context.
   # NOTE: an empty permission set is falsy, thus compare with None explicitly.
+  scope_permission = permissions.get_permission()
   if permission is None:
-    permission = permissions.get_permission()
+    permission = scope_permission
+  elif scope_permission is not None:
+    # An enclosing `pg.coding.permission` scope can only be narrowed by the
+    # argument, never widened.
+    permission = permission & scope_permission
   ctx = dict(get_context())
   if global_vars:
     ctx.update(global_vars)
